@@ -314,7 +314,7 @@ impl Check for C01 {
     }
     fn budget(&self, tier: Tier) -> (u64, Duration) {
         match tier {
-            Tier::Quick => (20_000, Duration::from_secs(90)),
+            Tier::Quick => (60_000, Duration::from_secs(120)),
             Tier::Thorough => (u64::MAX, Duration::from_secs(600)),
         }
     }
@@ -407,7 +407,7 @@ impl Check for C04 {
     }
     fn budget(&self, tier: Tier) -> (u64, Duration) {
         match tier {
-            Tier::Quick => (20_000, Duration::from_secs(90)),
+            Tier::Quick => (60_000, Duration::from_secs(120)),
             Tier::Thorough => (u64::MAX, Duration::from_secs(600)),
         }
     }
@@ -476,7 +476,7 @@ impl Check for C05 {
     }
     fn budget(&self, tier: Tier) -> (u64, Duration) {
         match tier {
-            Tier::Quick => (20_000, Duration::from_secs(90)),
+            Tier::Quick => (60_000, Duration::from_secs(120)),
             Tier::Thorough => (u64::MAX, Duration::from_secs(600)),
         }
     }
@@ -755,23 +755,16 @@ impl Check for C08 {
     }
     fn budget(&self, tier: Tier) -> (u64, Duration) {
         match tier {
-            Tier::Quick => (12_000, Duration::from_secs(90)),
+            Tier::Quick => (30_000, Duration::from_secs(120)),
             Tier::Thorough => (u64::MAX, Duration::from_secs(600)),
         }
     }
     fn run_index(&self, seed: u64, index: u64, tier: Tier, ctx: &mut WorkerCtx<Plan>, known: &KnownFindings) {
         let bases = sweep_bases();
-        let nsweep = match tier {
-            Tier::Quick => 24.min(bases.len()),
-            Tier::Thorough => bases.len(),
-        } as u64;
-        if index < nsweep {
-            // quick takes every third base so that all scripts are touched
-            let b = match tier {
-                Tier::Quick => &bases[(index as usize * 3 + index as usize / 26) % bases.len()],
-                Tier::Thorough => &bases[index as usize],
-            };
-            self.sweep(b, ctx, known);
+        let _ = tier;
+        if (index as usize) < bases.len() {
+            // both tiers sweep every base scenario; thorough differs in the random part
+            self.sweep(&bases[index as usize], ctx, known);
             return;
         }
         let mut rng = Rng::new(mix(seed, "C08", index));
@@ -791,12 +784,12 @@ impl Check for C08 {
         trace_plan(case, oracle::check_c08)
     }
     fn rule(&self) -> String {
-        "fault enumeration + seeded search. Sweep: for each small base scenario (13 scripts x 3 \
+        "fault enumeration + seeded search. Sweep (both tiers, all 78 base scenarios): for each small base scenario (13 scripts x 3 \
          network policies x 2 tokio seeds) a fault-free dry run fixes the server output length L, \
          the number of client writes W, the responses R and the instants of activity; then EVERY \
          server-output offset in [greeting_end, L] x {Cut, Garbage, ReadErr}, EVERY client write \
-         index 0..=W x {WriteErr, Reset}, CloseClean after every response and CloseClean/Reset at \
-         every instant is executed. Random: seeded plans (1-4 callers, lists, bursts, cancels, \
+         index 0..=W x {WriteErr, Reset}, CloseClean and IdleDenied (server refuses idle with an ACK) after every response and \
+         CloseClean/Reset/IdleDenied at every instant is executed. Random: seeded plans (1-4 callers, lists, bursts, cancels, \
          handle drops, dropped event receiver, optional album-art caller) with one fault placed by \
          a dry run inside an operation. Oracle R1-R7 at quiescence. distinct = distinct \
          interleaving signature; non-trivial = a fault actually fired (or the transport was \
@@ -887,7 +880,7 @@ impl Check for C17 {
     }
     fn budget(&self, tier: Tier) -> (u64, Duration) {
         match tier {
-            Tier::Quick => (8_000, Duration::from_secs(90)),
+            Tier::Quick => (20_000, Duration::from_secs(120)),
             Tier::Thorough => (u64::MAX, Duration::from_secs(600)),
         }
     }
@@ -1034,7 +1027,7 @@ impl Check for C18 {
     }
     fn budget(&self, tier: Tier) -> (u64, Duration) {
         match tier {
-            Tier::Quick => (12_000, Duration::from_secs(90)),
+            Tier::Quick => (30_000, Duration::from_secs(120)),
             Tier::Thorough => (u64::MAX, Duration::from_secs(600)),
         }
     }
